@@ -197,6 +197,7 @@ LEAVES = [
     ('UA', uc.UA), ('UB', uc.UB), ('UProto', uc.UProto), ('ENum', uc.ENum),
     ('Lit1', Literal[1]), ('LitTrue', Literal[True]), ('Lit_a_None', Literal['a', None]),
     ('Lit_0_a_ba', Literal[0, 'a', b'a']), ('LitEnum', Literal[uc.EColor.R]),
+    ('LitTrue1', Literal[True, 1]), ('Lit0False', Literal[0, False]), ('LitENum1', Literal[uc.ENum.ONE, 1]),
     ('type', type), ('Type[int]', Type[int]), ('Type[UA]', Type[uc.UA]),
     ('type[int|str]', Type[Union[int, str]]),
     ('TB', TB), ('TC', TC), ('TU', TU), ('NTInt', NTInt), ('NTUA', NTUA),
